@@ -2,6 +2,7 @@ import WuffsVerif.Common.Line
 import WuffsVerif.Model.StdHash
 import WuffsVerif.Model.Sha256Fips
 import WuffsVerif.Model.StdDeflate
+import WuffsVerif.Proof.StdDeflateTables
 import WuffsVerif.Model.StdSpecLzw
 import WuffsVerif.Model.StdSpecGzip
 /-! Line driver for C07 (std hashers and specification decoders).
@@ -21,6 +22,12 @@ import WuffsVerif.Model.StdSpecGzip
   wdec deflate <hex>       the MIRROR of std/deflate (Model/StdDeflate.lean: decode_blocks … decode_huffman_slow), one
                            transform_io call, closed source: `ok len= out= used=<source bytes consumed>` |
                            `err #deflate:_<status with _ for spaces>`
+  wdyn deflate <hex>       evidence for the open obligation `DynRefines` (Props/C07Deflate.lean): the specification's
+                           block loop and the mirror run side by side; at EVERY dynamic block the conclusion of
+                           `DynRefines` is evaluated (mirror accepts the header, same end bit, accumulator invariant,
+                           `tblOKb` and `agreeb` over all 2^15 windows for both tables) and after every block the two
+                           agree on position and output: `ok` | `skip <why>` (the specification does not decode the
+                           stream) | `bad <what>`
 -/
 open WuffsVerif WuffsVerif.Line WuffsVerif.StdHash
 
@@ -83,8 +90,69 @@ def hashOp (codec : String) (parts : List (List UInt8)) : Option String :=
 def cStatus (msg : String) : String :=
   "#deflate:_" ++ String.ofList ((msg.toList.drop 1).map (fun c => if c == ' ' then '_' else c))
 
+open WuffsVerif.StdDeflate in
+/-- see `wdyn` above; `verbose`: append block counts -/
+def dynEvidence (s : StdDeflate.Bytes) (verbose : Bool) : String := Id.run do
+  let mut st : St := {}
+  let mut p := 0
+  let mut out : StdDeflate.Bytes := #[]
+  let mut nblocks := 0
+  let mut ndyn := 0
+  for _ in [0 : 8 * s.size + 1] do
+    if Flate.Spec.avail s p < 3 then return s!"skip spec-truncated"
+    let typ := Flate.Spec.bitsLE s (p + 1) 2
+    match fillHeader s st with
+    | .error e => return s!"bad fillHeader@{p} {e}"
+    | .ok st1 =>
+      let st3 : St := { st1 with bits := st1.bits >>> 3, nBits := st1.nBits - 3 }
+      -- the specification's block (the `r` of `Spec.blocks`)
+      let mut r : Flate.Spec.BlockResult := .stop .corrupt p out
+      if typ == 0 then r := Flate.Spec.storedBlock s (p + 3) out
+      else if typ == 1 then
+        r := Flate.Spec.huffBlock Flate.Spec.fixedLit Flate.Spec.fixedDist 7 5 s none 0 (8 * s.size + 1) (p + 3) out
+      else if typ == 2 then
+        match Flate.Spec.dynamicHeader s (p + 3) with
+        | .ok hl hd minL p1 =>
+          ndyn := ndyn + 1
+          match initDynamicHuffman s st3 with
+          | .error e => return s!"bad dyn@{p}: the mirror rejects a header the specification accepts: {e}"
+          | .ok st' =>
+            if 8 * st'.ri != p1 + st'.nBits || st'.nBits ≥ 8 || st'.bits != Flate.Spec.bitsLE s p1 st'.nBits then
+              return s!"bad dyn@{p}: position/accumulator after the header"
+            if st'.huffs0.size != 1024 || st'.huffs1.size != 1024 || st'.nHuffsBits0 > 15 || st'.nHuffsBits1 > 15
+                || hl.maxLen > 15 || hd.maxLen > 15 || st'.out != st3.out then
+              return s!"bad dyn@{p}: sizes"
+            if !(tblOKb st'.huffs0 st'.nHuffsBits0) || !(tblOKb st'.huffs1 st'.nHuffsBits1) then
+              return s!"bad dyn@{p}: a table is not prefix-replicated"
+            if !(agreeb 15 st'.huffs0 st'.nHuffsBits0 hl valL) then return s!"bad dyn@{p}: H-L disagrees with the code"
+            if !(agreeb 15 st'.huffs1 st'.nHuffsBits1 hd valD) then return s!"bad dyn@{p}: H-D disagrees with the code"
+          r := Flate.Spec.huffBlock hl hd minL hd.minLen s none 0 (8 * s.size + 1) p1 out
+        | _ => return s!"skip spec-rejects-header"
+      match r with
+      | .stop _ _ _ => return s!"skip spec-stops"
+      | .next p1 out1 =>
+        match decodeBlock s st with
+        | .error e => return s!"bad block@{p}: {e}"
+        | .ok (fin, st') =>
+          if st'.out != out1 || 8 * st'.ri != p1 + st'.nBits || st'.nBits ≥ 8 then return s!"bad block@{p}: position/output"
+          if fin != Flate.Spec.bitAt s p then return s!"bad block@{p}: final bit"
+          nblocks := nblocks + 1
+          if fin != 0 then return (if verbose then s!"ok blocks={nblocks} dyn={ndyn}" else "ok")
+          st := st'
+          p := p1
+          out := out1
+  return "bad out-of-fuel"
+
 def c07Step (l : List String) : String :=
   match l with
+  | ["wdyn", "deflate", hx] =>
+    match fromHex hx with
+    | some x => dynEvidence x.toArray false
+    | none => "bad-op"
+  | ["wdynv", "deflate", hx] =>
+    match fromHex hx with
+    | some x => dynEvidence x.toArray true
+    | none => "bad-op"
   | ["wdec", "deflate", hx] =>
     match fromHex hx with
     | some x => match StdDeflate.inflate x.toArray with
